@@ -16,9 +16,9 @@
 // Class names used below:
 //
 //	core   0 <= n < 2^53 and exact result < 2^53    -> everything asserted
-//	wide   0 <= n, exact result fits int64 (not core) -> exactness + no value creation asserted
-//	          (any implementation returning int64 can satisfy it; it is what the
-//	          statement says literally for n < 2^53)
+//	wide   0 <= n, exact result fits int64 (not core) -> n < 2^53: exactness + round trip asserted (it is
+//	          what the statement says literally for n < 2^53 and any int64 API can
+//	          satisfy it); n >= 2^53: only "round trip never exceeds the original"
 //	wrap   0 <= n, exact result does not fit int64   -> NOT asserted, counted; the int64 API cannot
 //	          represent the result (see /verif/sensitivity/C39.md and the report)
 //	neg    n < 0                                     -> NOT asserted (contracts reject non-positive
@@ -171,23 +171,27 @@ func checkOne(rec *ev.Recorder, d dir, p int, n int64) (string, string) {
 		}
 		return cls, ""
 	}
-	// core + wide: exact value, hence same sign and no wrap
-	if exact.Cmp(big.NewInt(got)) != 0 {
-		return cls, fmt.Sprintf("%s(p=%d, n=%d) = %d, exact value %s [class %s]", d.name, p, n, got, exact, cls)
-	}
-	if got < 0 {
-		return cls, fmt.Sprintf("%s(p=%d, n=%d) = %d is negative", d.name, p, n, got)
+	// n < 2^53 (the statement's range): exact value, hence same sign and no wrap.
+	// n >= 2^53: only the no-value-creation rule of the round trip.
+	strict := n < lim53
+	if strict {
+		if exact.Cmp(big.NewInt(got)) != 0 {
+			return cls, fmt.Sprintf("%s(p=%d, n=%d) = %d, exact value %s [class %s]", d.name, p, n, got, exact, cls)
+		}
+		if got < 0 {
+			return cls, fmt.Sprintf("%s(p=%d, n=%d) = %d is negative", d.name, p, n, got)
+		}
 	}
 	// round trip: there and back never yields more than the original, and is
 	// exact when the intermediate precision is at least the source precision
 	rt := d.back(c, got)
-	exactBack := refConvert(to, from, exact)
-	if !fitsInt64(exactBack) { // cannot happen: exactBack <= n
-		return cls, fmt.Sprintf("reference round trip of %d does not fit int64: %s", n, exactBack)
-	}
 	if rt > n {
 		return cls, fmt.Sprintf("round trip %s(p=%d): %d -> %d -> %d creates value", d.name, p, n, got, rt)
 	}
+	if !strict {
+		return cls, ""
+	}
+	exactBack := refConvert(to, from, exact)
 	if rt < 0 {
 		return cls, fmt.Sprintf("round trip %s(p=%d): %d -> %d -> %d changes sign", d.name, p, n, got, rt)
 	}
